@@ -170,7 +170,7 @@ def getitem(part, idx):
     """part: list of Ax.  -> (child, per-axis contiguous flags)."""
     norm = normalize_index(idx, [a.n for a in part])
     child = [select_axis(a, sel, hs, he) for a, (sel, hs, he) in zip(part, norm)]
-    return child, [contiguous(sel) for sel, _, _ in norm]
+    return child, [contiguous(sel) and hs == sel[0] and he == sel[-1] + 1 for sel, hs, he in norm]
 
 
 def getitem_list(part, lst):
